@@ -492,9 +492,17 @@ def r2_append_ranges(ctx, rid):
             src_chain = _dotted(_inline(ctx, cf, it.func.value)) or ""
             if not src_chain:
                 raise AnalysisError(f"{rid}: cannot tell which mapping `{norm(it)}` iterates in cache_func (unrecognised form)")
+            # the new node may be built under another local and bound to the returned name afterwards (`node = new_node`)
+            root = src_chain.split(".")[0]
+            node_aliases = {node_name}
+            if isinstance(crets[0].value.elts[0], ast.Name):
+                for nd in ctx.rd(cf).defs_reaching(crets[0].value.elts[0]):
+                    av = assigned_value(nd, node_name) if isinstance(nd, (ast.Assign, ast.AnnAssign)) else None
+                    if isinstance(av, ast.Name):
+                        node_aliases.add(av.id)
             good = isinstance(v.elts[0], ast.Constant) and v.elts[0].value == 0 and v.elts[0].value is not False \
                 and isinstance(v.elts[1], ast.Name) and v.elts[1].id == tgt.elts[1].id and isinstance(key_e, ast.Name) and key_e.id == tgt.elts[0].id \
-                and node_name is not None and src_chain.startswith(node_name + ".") and src_chain.endswith(".var_lengths")
+                and node_name is not None and root in node_aliases and src_chain.endswith(".var_lengths")
             if good:
                 ctx.ok(rid, cf, d, "on a cache miss every variable of the new node gets the range (0, its length)", label="cache miss ranges")
             else:
@@ -967,9 +975,11 @@ def _lockstep(ctx, rid, f, attr_ev, src_ev, vname, which, pre=None):
 
 def _returns_ranges(ctx, fi, pos, depth=0, trail=()):
     """Does function fi return, at tuple position `pos` (None: the whole value), a dictionary of (start, stop) pairs?
-    Returns (True, chain) or raises AnalysisError when the chain cannot be followed."""
-    if depth > 6:
+    Returns (True, chain), (False, chain) when a returned value is positively something else, or raises AnalysisError when the
+    chain cannot be followed.  Every function is read with its private helpers spliced in (engine.inline)."""
+    if depth > 8:
         raise AnalysisError(f"C04-R4: return chain too deep at {fi.qual}")
+    fi = _R.view(ctx, fi)
     rets = [s for s in walk_shallow(fi.node) if isinstance(s, ast.Return) and s.value is not None]
     if not rets:
         if any(isinstance(s, ast.Raise) for s in fi.node.body):
@@ -978,6 +988,8 @@ def _returns_ranges(ctx, fi, pos, depth=0, trail=()):
     chain = list(trail) + [fi.qualname]
     for r in rets:
         v = r.value
+        if pos is not None and isinstance(v, ast.Name):
+            v = single_def_value(ctx, fi, v) or v              # result = (node, labels, ranges); return result
         if pos is not None and isinstance(v, ast.Tuple):
             if pos >= len(v.elts):
                 return False, chain
@@ -997,14 +1009,32 @@ def _returns_ranges(ctx, fi, pos, depth=0, trail=()):
             ok, chain = _elt_is_ranges(ctx, fi, v, depth, chain)
             if not ok:
                 return False, chain
+        elif isinstance(v, (ast.Constant, ast.Dict, ast.List, ast.DictComp, ast.ListComp)):
+            return False, chain                                   # a single non-tuple value where a tuple is unpacked
         else:
-            return False, chain
+            raise AnalysisError(f"C04-R4: cannot follow the value `{norm(v)}` returned by {fi.qual}")
     return True, chain
+
+
+def _pair_or_not(ctx, fi, e):
+    """True: e is a (start, stop) pair; False: positively something else (a name, constant, list, longer tuple); None: unknown"""
+    if isinstance(e, ast.Name):
+        e = (single_def_value(ctx, fi, e) if getattr(e, "_parent", None) is not None else None) or e
+        if isinstance(e, ast.Name):
+            return None
+    if isinstance(e, ast.Tuple):
+        return len(e.elts) == 2
+    if isinstance(e, (ast.Constant, ast.List, ast.Dict, ast.JoinedStr, ast.ListComp, ast.DictComp)):
+        return False
+    return None
 
 
 def _elt_is_ranges(ctx, fi, e, depth, chain):
     if isinstance(e, ast.DictComp):
-        return isinstance(e.value, ast.Tuple) and len(e.value.elts) == 2, chain
+        p = _pair_or_not(ctx, fi, e.value)
+        if p is None:
+            raise AnalysisError(f"C04-R4: cannot tell whether the values of `{norm(e)}` in {fi.qual} are (start, stop) pairs")
+        return p, chain
     if isinstance(e, ast.Call):
         targets, how = ctx.cg.resolve_call(fi, e)
         if not targets and isinstance(e.func, ast.Attribute):
@@ -1020,22 +1050,33 @@ def _elt_is_ranges(ctx, fi, e, depth, chain):
     if isinstance(e, ast.Name):
         defs = ctx.rd(fi).defs_reaching(e)
         if not defs:
-            return False, chain
+            raise AnalysisError(f"C04-R4: `{e.id}` in {fi.qual} has no local definition")
         for d in defs:
             val = assigned_value(d, e.id)
             if val is None:
-                return False, chain
-            if isinstance(val, ast.Dict) and not val.keys:
+                raise AnalysisError(f"C04-R4: cannot follow the definition `{norm(d)}` of `{e.id}` in {fi.qual}")
+            if _empty_dict(val):
                 stores = [s for s in walk_shallow(fi.node) if isinstance(s, ast.Assign) and len(s.targets) == 1 and isinstance(s.targets[0], ast.Subscript)
                           and isinstance(s.targets[0].value, ast.Name) and s.targets[0].value.id == e.id]
-                if not stores or not all(isinstance(s.value, ast.Tuple) and len(s.value.elts) == 2 for s in stores):
-                    return False, chain
+                kinds = [_pair_or_not(ctx, fi, s.value) for s in stores]
+                if not stores or any(k is False for k in kinds):
+                    return False, chain                       # never filled / filled with something that is no pair
+                if any(k is None for k in kinds):
+                    raise AnalysisError(f"C04-R4: cannot tell whether `{e.id}` in {fi.qual} is filled with (start, stop) pairs")
                 continue
             ok, chain = _elt_is_ranges(ctx, fi, val, depth, chain)
             if not ok:
                 return False, chain
         return True, chain
-    return False, chain
+    if isinstance(e, ast.Dict):
+        kinds = [_pair_or_not(ctx, fi, v) for v in e.values]
+        if e.values and all(k is True for k in kinds):
+            return True, chain
+        if not e.values or any(k is False for k in kinds):
+            return False, chain
+    if isinstance(e, (ast.Constant, ast.List, ast.Tuple, ast.ListComp, ast.JoinedStr)):
+        return False, chain
+    raise AnalysisError(f"C04-R4: cannot follow the value `{norm(e)}` in {fi.qual}")
 
 
 def _feasible(call: ast.Call, fi) -> bool:
